@@ -57,7 +57,7 @@ Qed.
 
 Lemma imp_quoted s : imp_newick_quoted s = Ret (Newick.quoted s).
 Proof.
-  unfold imp_newick_quoted, Newick.quoted, go_len.
+  unfold imp_newick_quoted, Newick.quoted, go_len, go_andalso.
   destruct (Nat.leb_spec 2 (length s)) as [H|H].
   - replace (2 <=? Z.of_nat (length s)) with true by lia.
     destruct s as [|x r]; [cbn [length] in H; lia|].
